@@ -10,7 +10,6 @@ package main
 import (
 	"fmt"
 	"os"
-	"sort"
 	"testing"
 	"time"
 
@@ -30,7 +29,8 @@ type vRdvBalScenario struct {
 	Phases []vRdvBalPhase    `json:"phases"`
 }
 
-func vRdvBalRank(scn vRdvBalScenario, ids []int) []int {
+// vRdvBalSetup builds a Balancer over the given services (one writable mount each).
+func vRdvBalSetup(scn vRdvBalScenario, ids []int) (*Balancer, map[int]*KeepService, map[*KeepService]int) {
 	logger := logrus.New()
 	logger.Out = os.Stderr
 	logger.Level = logrus.ErrorLevel
@@ -51,6 +51,13 @@ func vRdvBalRank(scn vRdvBalScenario, ids []int) []int {
 	}
 	bal.MinMtime = time.Now().UnixNano() - 3600*1e9
 	bal.cleanupMounts()
+	return bal, srvOf, idOf
+}
+
+// Method A: one old replica on s0; for desired = 1..n the pull targets are the j best-ranked
+// servers except s0, so the server added at step j has rank j (no addition: s0 has rank j).
+func vRdvBalRankByPulls(scn vRdvBalScenario, ids []int) []int {
+	bal, srvOf, idOf := vRdvBalSetup(scn, ids)
 	blkid := arvados.SizedDigest(fmt.Sprintf("%s+%d", scn.Hash, scn.Size))
 	s0 := ids[0]
 	var order []int
@@ -73,24 +80,83 @@ func vRdvBalRank(scn vRdvBalScenario, ids []int) []int {
 				}
 			}
 		}
-		sort.Ints(added)
 		switch len(added) {
 		case 0:
-			if !seen[s0] {
-				order = append(order, s0)
-				seen[s0] = true
-			} else {
-				order = append(order, -1) // no new server at this rank: not an order
+			if seen[s0] {
+				return nil
 			}
+			order = append(order, s0)
+			seen[s0] = true
+		case 1:
+			order = append(order, added[0])
+			seen[added[0]] = true
 		default:
-			// more than one new target at a step cannot be ordered; record them as they are
-			for _, id := range added {
-				order = append(order, id)
-				seen[id] = true
-			}
+			return nil
 		}
 	}
 	return order
+}
+
+// Method B: an old replica (distinct timestamps) on every server; for desired = j the servers
+// ranked worse than j are trashed, so the server that stops being trashed at step j has rank j.
+func vRdvBalRankByTrashes(scn vRdvBalScenario, ids []int) []int {
+	bal, srvOf, idOf := vRdvBalSetup(scn, ids)
+	blkid := arvados.SizedDigest(fmt.Sprintf("%s+%d", scn.Hash, scn.Size))
+	prev := map[int]bool{}
+	for _, id := range ids {
+		prev[id] = true // desired 0: everything would be trashed
+	}
+	var order []int
+	for j := 1; j <= len(ids); j++ {
+		bal.setupLookupTables()
+		for _, srv := range bal.KeepServices {
+			srv.ChangeSet = &ChangeSet{}
+		}
+		var repl []Replica
+		for k, id := range ids {
+			repl = append(repl, Replica{KeepMount: srvOf[id].mounts[0], Mtime: bal.MinMtime - 1e12 - int64(k)*1e9})
+		}
+		bal.balanceBlock(blkid, &BlockState{Replicas: repl, Desired: map[string]int{"default": j}})
+		cur := map[int]bool{}
+		for _, srv := range bal.KeepServices {
+			if len(srv.Trashes) > 0 {
+				cur[idOf[srv]] = true
+			}
+		}
+		var kept []int
+		for id := range prev {
+			if !cur[id] {
+				kept = append(kept, id)
+			}
+		}
+		for id := range cur {
+			if !prev[id] {
+				return nil
+			}
+		}
+		if len(kept) != 1 {
+			return nil
+		}
+		order = append(order, kept[0])
+		prev = cur
+	}
+	return order
+}
+
+// vRdvBalRank reports keep-balance's rank only when two independent ways of reading it off
+// balanceBlock's decisions (pull targets, trash targets) agree; a change of pull or trash POLICY
+// makes them disagree or fail, and then nothing is reported (the check notes it as drift).
+func vRdvBalRank(scn vRdvBalScenario, ids []int) ([]int, bool) {
+	a, b := vRdvBalRankByPulls(scn, ids), vRdvBalRankByTrashes(scn, ids)
+	if a == nil || b == nil || len(a) != len(b) {
+		return nil, false
+	}
+	for i := range a {
+		if a[i] != b[i] {
+			return nil, false
+		}
+	}
+	return a, true
 }
 
 func TestVerifC12Bal(t *testing.T) {
@@ -100,7 +166,11 @@ func TestVerifC12Bal(t *testing.T) {
 	defer out.Close()
 	for _, scn := range scns {
 		for p, ph := range scn.Phases {
-			out.Write(map[string]interface{}{"ev": "bal", "scn": scn.ID, "phase": p, "seq": vRdvBalRank(scn, ph.IDs)})
+			if seq, ok := vRdvBalRank(scn, ph.IDs); ok {
+				out.Write(map[string]interface{}{"ev": "bal", "scn": scn.ID, "phase": p, "seq": seq})
+			} else {
+				out.Write(map[string]interface{}{"ev": "balunknown", "scn": scn.ID, "phase": p})
+			}
 		}
 	}
 	fmt.Println("VERIF-DRIVER-DONE scenarios:", len(scns))
